@@ -83,6 +83,35 @@ def is_opt_or_res(ty):
     return None
 
 
+def _lit(x):
+    """integer value of a literal or of a named constant with a known value"""
+    if x[0] == 'c' and isinstance(x[1], int):
+        return x[1]
+    if x[0] == 'k' and len(x) > 2 and isinstance(x[2], int) and not isinstance(x[2], bool):
+        return x[2]
+    return None
+
+
+def ckey(t):
+    """identity of a condition term: call-site block numbers are dropped (a pure call on unchanged arguments is the same
+    condition wherever it is made), mutation marks ('upd' with their block) are kept"""
+    if not isinstance(t, tuple):
+        return repr(t)
+    if t[0] == 'call':
+        return 'call(%s;%s)' % (t[1], ','.join(ckey(a) for a in t[2]))
+    parts = []
+    for x in t:
+        if isinstance(x, tuple):
+            parts.append(ckey(x))
+        elif isinstance(x, list):
+            parts.append('[' + ','.join(ckey(y) if isinstance(y, tuple) else repr(y) for y in x) + ']')
+        elif isinstance(x, dict):
+            parts.append('{' + ','.join('%s:%s' % (k, ckey(v) if isinstance(v, tuple) else repr(v)) for k, v in sorted(x.items())) + '}')
+        else:
+            parts.append(repr(x))
+    return '(' + ' '.join(parts) + ')'
+
+
 def fold(t):
     """Local simplification of a freshly built term."""
     k = t[0]
@@ -92,8 +121,8 @@ def fold(t):
             return ('c', 0 if x[1] else 1)
         if x[0] == 'un' and x[1] == 'Not':
             return x[2]
-    if k == 'op' and t[2][0] == 'c' and t[3][0] == 'c' and isinstance(t[2][1], int) and isinstance(t[3][1], int):
-        a, b = t[2][1], t[3][1]
+    if k == 'op' and _lit(t[2]) is not None and _lit(t[3]) is not None:
+        a, b = _lit(t[2]), _lit(t[3])
         o = t[1].replace('WithOverflow', '').replace('Unchecked', '')
         try:
             f = {'Add': a + b, 'Sub': a - b, 'Mul': a * b, 'Eq': int(a == b), 'Ne': int(a != b), 'Lt': int(a < b), 'Le': int(a <= b),
@@ -427,10 +456,10 @@ class Sym:
         while d[0] == 'un' and d[1] == 'Not':
             d = d[2]
             neg = not neg
-        key = repr(d)
+        key = ckey(d)
         known = None
         for c, v in st.conds:
-            if repr(c) == key:
+            if ckey(c) == key:
                 known = v
         oth_live = self.b.blocks[oth]['term']['k'] != 'unreachable' or self.b.blocks[oth]['stmts']
         targets = []
@@ -577,10 +606,10 @@ class Sym:
             k(st, x[2] in ('Some', 'Ok'))
             return
         d = ('discr', x)
-        key = repr(d)
+        key = ckey(d)
         known = None
         for c, v in st.conds:
-            if repr(c) == key:
+            if ckey(c) == key:
                 known = v
         okv = 1 if kind == 'Option' else 0
         for ok in (True, False):
@@ -923,3 +952,25 @@ def getters(facts):
             break
         out.update(new)
     return out
+
+
+def row_consistent(row, atoms):
+    """Like row_holds, but decisions that cannot be evaluated under the (partial) assignment are ignored: False only if some
+    evaluable decision contradicts the assignment."""
+    from .rl import Unsupported, EvalPanic
+    for c, v in row.conds:
+        try:
+            x = teval(c, atoms)
+        except (Unsupported, EvalPanic, KeyError, TypeError, IndexError):
+            continue
+        if isinstance(x, tuple):
+            continue
+        if isinstance(v, bool):
+            if bool(x) != v:
+                return False
+        elif isinstance(v, tuple):
+            if x in v[1]:
+                return False
+        elif x != v:
+            return False
+    return True
